@@ -1,26 +1,82 @@
 """Configuration of the C20 check (see lib/props.py)."""
 P = {'id': 'C20',
  'level': 'proof',
- 'theorems': ['mag_cmp_correct_thm', 'decimal_strcmp_correct', 'decimal_antisym', 'decimal_trans',
-              'realnum_strcmp_correct', 'realnum_antisym', 'realnum_trans', 'realnum_le_trans',
-              'join_is_intercalate', 'join_iter_is_intercalate', 'join_length',
-              'split_join', 'join_split', 'split_fields_clean', 'fs_split_spec', 'fs_split_join',
-              'lines_unlines', 'words_are_maximal_runs',
-              'case_maps', 'to_lower_bmi2_is_map', 'to_upper_bmi2_is_map', 'case_length',
-              'lex_seek_lower_bound_spec', 'lex_seek_upper_bound_spec', 'lex_enumerate_all',
-              'lex_lower_bound_walk', 'lex_upper_bound_walk'],
- 'trusted': ['modelled (M+S): src/string/numeric_compare.rs (decimal_strcmp, realnum_strcmp and helpers); src/string/join.rs (join/join_str/join_fast_str/'
-             'JoinBuilder::build as one loop, join_iter/join_bytes_iter as the first-flag loop); LineSplitter::split_optimized and FastStr::split '
-             '(SplitIter) ; WordIterator; LineProcessor::read_next_line/process_lines in the default configuration (BufRead::read_line is part of the model); '
-             'Bmi2StringProcessor::to_{lower,upper}case_ascii_bmi2 (u64 chunk path with BEXTR/shift/or and the scalar remainder); SortedVecLexIterator '
-             '(next/prev/seek_start/seek_end/binary_search_by/seek_lower_bound and the trait-default seek_upper_bound) -- all as byte-list functions',
-             'spec-only cells (direct oracle against std, no mechanism model): FastStr (eq/ord/hash coherence/find/slicing), StreamingLexIterator, '
-             'SortableStrVec, ZoSortedStrVec, unicode.rs (UTF-8 validation/iteration, Unicode case wrappers), LineProcessor non-default configurations, '
-             'batches and split_lines_by, word-boundary helper functions',
-             'std is trusted where the code delegates to it: str::split in LineSplitter simple strategy (tied to split_opt by cases), slice cmp/starts_with/'
-             'ends_with in FastStr'],
+ 'theorems': ['mag_cmp_correct_thm',
+              'decimal_strcmp_correct',
+              'decimal_antisym',
+              'decimal_trans',
+              'realnum_strcmp_correct',
+              'realnum_antisym',
+              'realnum_trans',
+              'realnum_le_trans',
+              'join_is_intercalate',
+              'join_iter_is_intercalate',
+              'join_length',
+              'split_join',
+              'join_split',
+              'split_fields_clean',
+              'fs_split_spec',
+              'fs_split_join',
+              'lines_unlines',
+              'words_are_maximal_runs',
+              'case_maps',
+              'to_lower_bmi2_is_map',
+              'to_upper_bmi2_is_map',
+              'case_length',
+              'lex_seek_lower_bound_spec',
+              'lex_seek_upper_bound_spec',
+              'lex_enumerate_all',
+              'lex_lower_bound_walk',
+              'lex_upper_bound_walk',
+              'fs_find_first_occurrence',
+              'fs_find_byte_first',
+              'fs_starts_with_spec',
+              'fs_ends_with_spec',
+              'fs_starts_with_is_find_0',
+              'fs_cmp_by_common_prefix',
+              'fs_cmp_total_order',
+              'fs_slicing',
+              'fs_substring_spec',
+              'fs_hash_paths_agree',
+              'fs_eq_hash_coherent',
+              'find_word_boundaries_spec',
+              'word_at_position_maximal',
+              'lines_cfg_decompose',
+              'lines_keep_concat',
+              'count_lines_is_length',
+              'batches_spec',
+              'lines_default_is_lines',
+              'utf8_walks',
+              'utf8_roundtrip',
+              'streaming_enumerates',
+              'streaming_unlines',
+              'ssv_binary_search_spec',
+              'zo_spec',
+              'zo_accepts',
+              'ssv_push_get',
+              'ssv_push_refuses',
+              'fast_lex_cmp_is_lex',
+              'boundaries_cut'],
+ 'trusted': ['modelled (M+S): src/string/numeric_compare.rs (decimal_strcmp, realnum_strcmp and helpers); src/string/join.rs '
+             '(join/join_str/join_fast_str/JoinBuilder::build as one loop, join_iter/join_bytes_iter as the first-flag loop); LineSplitter::split_optimized '
+             'and FastStr::split (SplitIter) ; WordIterator; LineProcessor::read_next_line/process_lines in the default configuration (BufRead::read_line is '
+             'part of the model); Bmi2StringProcessor::to_{lower,upper}case_ascii_bmi2 (u64 chunk path with BEXTR/shift/or and the scalar remainder); '
+             'SortedVecLexIterator (next/prev/seek_start/seek_end/binary_search_by/seek_lower_bound and the trait-default seek_upper_bound) -- all as '
+             'byte-list functions; extension (all M+S): FastStr (slicing arithmetic, find / find_byte, starts_with / ends_with, common_prefix_len, compare, '
+             'the AVX2 / SSE2 / portable hash paths with hash_remainder), word-boundary helpers (is_word_boundary, find_word_boundaries, word_at_position), '
+             'LineProcessor under every skip_empty / trim / preserve-endings configuration (process_lines, count_lines, process_batches), unicode.rs '
+             '(utf8_byte_count, Utf8ToUtf32Iterator, validation count), StreamingLexIterator, SortableStrVec storage (packed 64-bit entries, push / get), '
+             'SortableStrVec::binary_search (block path) and fast_lexicographic_cmp (through a cfg(zipora_verif) hook), ZoSortedStrVec (NUL-terminated data + '
+             'boundary bits, get, binary_search, lower_bound, range, acceptance test)',
+             'spec-only cells (direct oracle against std, no mechanism model): the sorting algorithms of SortableStrVec (comparison sort through std, MSD '
+             'radix sort, sort_by_length, sort_by), Unicode case wrappers and UnicodeProcessor, split_lines_by / find_lines / line_utils, LineProcessor buffer '
+             'sizes and max_line_length, FastStr conversions',
+             'std is trusted where the code delegates to it and is modelled by its specification: str::split in LineSplitter simple strategy (tied to '
+             'split_opt by cases), slice cmp / starts_with / ends_with in FastStr, str::from_utf8 + chars() (the UTF-8 validation automaton decode1), '
+             'str::trim (a parameter of the line theorems; the Unicode White_Space set in the cases), slice::binary_search_by (any index among equal strings '
+             'accepted), RankSelectInterleaved256::select1 (position of the k-th set bit; its layout is C04)'],
  'assumptions': ['strings are lists of bytes < 256; usize arithmetic does not overflow for in-memory strings',
-                 'agreement of model and code is established on the generated cases only (about 4000 per quick run, evaluated inside Coq)'],
+                 'agreement of model and code is established on the generated cases only (about 6000 per quick run, evaluated inside Coq)'],
  'level_text': 'Machine-checked Coq theorems, for inputs of any length: decimal_strcmp and realnum_strcmp, as written, equal comparison of the denoted '
                'integers / rationals (signs, signed zero, leading zeros, trailing fraction zeros, "5." = "5"), return None exactly on invalid input, and are '
                'antisymmetric and transitive (also mixed <=/< transitivity for the real comparator); every join entry point equals the straightforward '
@@ -30,17 +86,34 @@ P = {'id': 'C20',
                'maximal runs of word bytes; the BMI2 chunked ASCII case conversion is the byte-wise map, length-preserving, identity outside letters, '
                'involutive on letters; the sorted-vector lexicographic iterator enumerates every string once in order, seek_lower_bound/seek_upper_bound '
                'position the cursor at the first string >= / > the target on every sorted list with duplicates and empty strings, and walking from there '
-               'yields exactly the strings >= / > the target. The models are tied to the code by evaluating thousands of cases in Coq on every run. FastStr, '
-               'StreamingLexIterator, SortableStrVec, ZoSortedStrVec and unicode.rs are decided by a boundary-biased/exhaustive differential oracle against '
-               'std, which is weaker than proof and labelled S-only in the evidence.',
- 'level_note': 'Trusted: Coq kernel + vm_compute; hand-written models; harness oracle (exact i128 arithmetic for numeric values, std slice/str operations). Not '
-               'modelled: SIMD hash/compare paths of FastStr (oracle: hash/eq coherence over 24 alignments x lengths 0..130 x every constructor), radix and '
-               'block-search paths of SortableStrVec, the rank/select layout of ZoSortedStrVec (shared with C04). Oracle breadth (harness/src/c20_wide.rs, oracle only, no Coq '
-               'case): pre-parsed comparator entry points, numerals up to 2^20 digits, FastStr up to 2^20+1 bytes, presets / buffer sizes / maximum line length '
-               'of LineProcessor, operation histories on one reused LineProcessor, LineSplitter, JoinBuilder, SortableStrVec (with its environment options), '
-               'Utf8ToUtf32Iterator and StreamingLexIterator, big sorted lists and ZoSortedStrVec layouts above 2^16 / 2^20 bits.',
+               'yields exactly the strings >= / > the target. Extension, also machine-checked for all inputs: FastStr::find returns exactly the first '
+               'occurrence (None iff there is none; empty and overlapping needles), starts_with / ends_with are the prefix / suffix relations and agree with '
+               'find, common_prefix_len is the longest common prefix and compare is decided by the unsigned bytes after it, compare is a total order '
+               'consistent with ==, the slicing functions clamp as documented (substring panics exactly when start > len), the AVX2, SSE2 and portable hash '
+               'paths compute the same function (so equal strings hash equally on every machine) ; find_word_boundaries lists exactly the positions '
+               'is_word_boundary accepts and word_at_position returns the maximal word around a position; every LineProcessor configuration is the per-line '
+               'post-processing and filtering of the raw pieces, with endings preserved the pieces concatenate to the input, count_lines equals the number of '
+               'delivered lines and process_batches hands over the same lines in full batches plus one partial batch; on every valid UTF-8 text next_char / '
+               'prev_char enumerate exactly chars() forward / backward and every list of scalar values round-trips; StreamingLexIterator enumerates exactly '
+               'the lines of the stream; SortableStrVec reads back every pushed string through its packed entries, its binary_search (block and small path) '
+               'returns the needle or the insertion point on every sorted enumeration, and its chunked comparison kernel equals byte-wise order; '
+               'ZoSortedStrVec accepts exactly sorted NUL-free lists, reads back every string, and its binary_search / lower_bound / range are exact on lists '
+               'with duplicates and empty strings. The models are tied to the code by evaluating about 6000 cases in Coq on every run. The sorting algorithms '
+               'of SortableStrVec, the Unicode case wrappers and the remaining LineProcessor entry points are decided by a differential oracle against std '
+               'only (S-only in the evidence).',
+ 'level_note': 'Trusted: Coq kernel + vm_compute; hand-written models; harness oracle (exact i128 arithmetic for numeric values, std slice/str operations). '
+               'Not modelled: the AVX-512 paths of FastStr (feature-gated), the sorts of SortableStrVec (radix, by length, custom), the rank/select layout '
+               'under ZoSortedStrVec (select1 by specification; C04). The hash paths are modelled as functions of the byte string; independence of the buffer '
+               'address is observed by the oracle (24 alignments x lengths 0..130 x every constructor) and by the hash value itself being compared with the '
+               'model. SortableStrVec::radix_sort is additionally run in child processes on strings with long common runs (recursion depth; a stack overflow there was found and repaired, e7f9123). Oracle breadth (harness/src/c20_wide.rs, oracle only, no Coq case): pre-parsed comparator entry points, numerals up to 2^20 digits, '
+               'FastStr up to 2^20+1 bytes, presets / buffer sizes / maximum line length of LineProcessor, operation histories on one reused LineProcessor, '
+               'LineSplitter, JoinBuilder, SortableStrVec (with its environment options), Utf8ToUtf32Iterator and StreamingLexIterator, big sorted lists and '
+               'ZoSortedStrVec layouts above 2^16 / 2^20 bits.',
  'technique': 'Coq proof (digit-string induction + nia for the comparators; list induction, fuelled loops and a binary-search invariant for the string models; '
               'bit-field arithmetic by lia for the u64 chunk path) + model/implementation differential check by vm_compute + exhaustive/generated oracle for '
-              'the spec-only cells',
- 'explanation': 'Unbounded theorems for both numeric comparators, join/split, line splitting, words, ASCII case maps and the sorted-vector lexicographic '
-                'iterator; differential + exhaustive oracle for FastStr and the remaining containers.'}
+              'the spec-only cells; extension: first-occurrence invariants for the search loops, chunk decomposition (concat of chunks_exact pieces) for the '
+              'hash paths and the comparison kernel, a UTF-8 piece decomposition for the bidirectional iterator, binary-search invariants over block starts, '
+              'bit-field arithmetic for the packed entries',
+ 'explanation': 'Unbounded theorems (56) for both numeric comparators, join/split, line splitting in every configuration, words and word boundaries, ASCII '
+                'case maps, both lexicographic iterators, FastStr search / order / slicing / hash paths, the UTF-8 iterator, SortableStrVec storage / search / '
+                'comparison kernel and ZoSortedStrVec; differential oracle only for the SortableStrVec sorts and a few std wrappers.'}
